@@ -597,7 +597,9 @@ class TrainRun:
         self.comps = self.adapter.build(self)
         undo = self.adapter.install(self) if hasattr(self.adapter, "install") else []
         size = plan["cfg"].get("buffer_size", 1000)
-        if plan.get("supply_buffer", True) or hasattr(self.adapter, "make_buffer"):
+        if plan.get("default_buffer"):
+            self.buffer = None  # the routine creates its own buffer (replay_buffer=None)
+        elif plan.get("supply_buffer", True) or hasattr(self.adapter, "make_buffer"):
             if hasattr(self.adapter, "make_buffer"):
                 self.buffer = self.adapter.make_buffer(self, size)
             else:
@@ -665,6 +667,11 @@ class TrainRun:
             self.calls.append(rec)
             self.res.log.add("call", {k: v for k, v in rec.items() if k != "link"})
             if err is not None:
+                if isinstance(err, ValueError) and "No valid entry to sample" in str(err):
+                    # the prioritised sub-trajectory buffer refuses to sample while every start is masked out
+                    # (e.g. only truncated episodes shorter than the horizon so far): loud, not a violation
+                    self.res.probe("sampling_refused_no_valid_entry")
+                    break
                 self.V(f"{self.prop}.raise", f"{type(err).__name__}: {err}")
                 break
             if self.aborted:
